@@ -11,10 +11,10 @@ IR_NOTE = ('Trusted: Coq 8.16.1 kernel; extraction (ExtrOcamlBasic only); ocaml/
 
 CHECKS = {
  'C01': dict(engine='ir', technique='Coq proof (invariant by induction over op histories) + model/implementation correspondence',
-   text='proof: the containment half of the property (every container lists exactly the elements naming it as parent, once; reorder only permutes) is proved in Coq for every op, every argument and every outcome of the model of all IR mutators (Props/C01.v: C01_containment_step, C01_containment_reachable, C01_reorder), modulo the stuck outcome that the mirror invariant excludes. The pin-wire half is stated (Inv1 oracle) and checked on the implementation after every step; its Coq proof is not finished. The model is tied to the code by running the same random histories on spydrnet and on the extracted model and comparing full structural dumps after every call.',
+   text='proof (full statement on the model): in every state reachable by any history of public editing calls (any arguments, accepted or refused) every container lists exactly the elements that name it as their parent, each once; a pin is on a wire\'s list exactly when it reports that wire, each once; reorder only permutes (Props/C01.v: C01_step - the invariant Inv is preserved by every op, every argument, every outcome and the model never gets stuck -, C01_reachable, C01_containers, C01_pins_and_wires, C01_reorder, C01_nonvacuous). The model of all IR mutators is tied to the code by running the same random histories on spydrnet and on the extracted model and comparing full structural dumps after every call, plus the Inv1 oracle on the implementation.',
    design='DESIGN.md 5/C01, 10'),
  'C02': dict(engine='ir', technique='Coq proof (invariant by induction over op histories) + model/implementation correspondence',
-   text='proof (partial): the reference-set clause (an instance referencing d is a member of d.references and of no other set) is proved for every op/argument/outcome (Props/C02.v: C02_reference_sets_step/_init). The outer-pin clause is stated as C02_full, checked by the Inv2 oracle on the implementation after every step of every generated history, and by the correspondence of instance pin maps; not yet proved in Coq.',
+   text='proof (full statement on the model): in every state reachable by any history of public editing calls (any arguments, accepted or refused) an instance referencing d is a member of d.references and of no other set, carries exactly one outer pin per inner pin its definition currently has (no duplicates), and no wire lists an outer pin the instance does not carry (Props/C02.v: C02_reachable, C02_step, C02_reference_sets, C02_outer_pins, C02_no_dropped_pin_on_wire; invariant Inv by induction over histories). Re-pointing to a shape-compatible definition keeps every connection on the corresponding pin: C02_repoint_full (pin side) and C02_repoint_wires (every wire keeps its pins at the same positions with each outer pin replaced by its counterpart), Proofs/Repoint.v. Tied to the code by the correspondence run (instance pin maps and wires compared after every call) and the Inv2/MirrorPins oracles on the implementation.',
    design='DESIGN.md 5/C02, 10'),
  'C10': dict(engine='ir', technique='Coq proof (finite-map laws of the namespace tables, identifier legality iff) + model/implementation correspondence of the namespace manager',
    text='proof (partial): identifier legality test = declarative EDIF identifier syntax (iff); lookup-after-rename, case-insensitive identifier lookup, no ghost entry after removal (names and mixed-case identifiers), conflict reported iff another element owns the name (Props/C10.v). The whole-history invariant (tables = children names, lookup = scan) is checked by the NsInv oracle on the implementation and by comparing the manager\'s tables with the model\'s after every call; not yet proved in Coq.',
